@@ -224,7 +224,7 @@ class ObjectTemplate:
                 return int(float(cast(str, self.count_expr.render(context))))
             except (ValueError, TypeError) as e:
                 raise DataGenValueError(
-                    f"Cannot evaluate {self.count_expr.definition} as number",
+                    f"Cannot evaluate {getattr(self.count_expr, 'definition', self.count_expr)} as number",
                     self.count_expr.filename,
                     self.count_expr.line_num,
                 ) from e
